@@ -70,8 +70,8 @@ type Sched struct {
 	// Coarse, if set, limits scheduling points to the operations whose label it accepts (plus operations that
 	// actually have to block). For scenarios whose executions have too many fine-grained points to enumerate, when
 	// the oracle only depends on the coarse ones (e.g. snapshot reads against commits).
-	Coarse  func(label string) bool
-	Horizon int
+	Coarse      func(label string) bool
+	Horizon     int
 	ticks       []*thread
 	clockOffset atomic.Int64 // virtual clock = real clock + offset (ns); timers advance it
 	// TimerDurations records the delay requested by every AfterFunc of this run
